@@ -83,7 +83,7 @@ func c01Cfgs() []Cfg {
 }
 
 func c01Batch(cfg Cfg, thorough bool) []c01Case {
-	alpha := []string{"z", "a", "b", "p+"}
+	alpha := []string{"z", "a", "b", "p", "p+"}
 	maxLen := 3
 	if thorough {
 		alpha = []string{"z", "a", "b", "p-", "p", "p+"}
@@ -292,7 +292,7 @@ func TestC01(t *testing.T) {
 		c.Bound("alphabet", "z,a,b,p-,p,p+ (+t-,t,t+ at every position of length 3; G-,G,G+ in length 2)")
 		c.Bound("max_sequence_length", 4)
 	} else {
-		c.Bound("alphabet", "z,a,b,p+")
+		c.Bound("alphabet", "z,a,b,p,p+")
 		c.Bound("max_sequence_length", 3)
 	}
 	cfgs := c01Cfgs()
